@@ -36,6 +36,7 @@ type Import struct {
 func Execute(r *Rule, ctx *an.Ctx) {
 	r.Run(ctx)
 	runLockTable(r.ID, ctx)
+	runErrTable(r.ID, ctx)
 	done := map[string]*an.Ctx{}
 	for _, im := range r.Imports {
 		prop := im.From
